@@ -154,9 +154,6 @@ func c12Check(in c12Input) (key, what string) {
 				// next token when printing it first would introduce an implicit semicolon)
 				randomDecorateWith(rnd, f, in.Dens, []string{"/* b */", "\n", "/*x*/", "\n", "/**/", "/* c */"})
 			}
-			for firstEmissionIsNewline(f) {
-				f.Decs.Start = f.Decs.Start[1:] // recorded finding first-emission-newline, checked separately
-			}
 		}
 		// light edit: reverse the declarations after the imports
 		if rnd.Intn(3) == 0 && len(f.Decls) > 2 {
